@@ -259,9 +259,11 @@ def check_cfg(F, R, cfg):
         fv = view(F, f)
         good = False
         for s in fv.exit_sites():
-            if s["kind"] == "call" and re.search(r"ConstantTimeEq.*::ct_eq$", cname(s["term"])):
+            is_id = s["kind"] == "call" and re.search(r"(group::Group|traits::IsIdentity)>::is_identity$", cname(s["term"]))
+            if s["kind"] == "call" and (is_id or re.search(r"ConstantTimeEq.*::ct_eq$", cname(s["term"]))):
                 m = rc(fv, s["term"]["args"][0], r"ops::Mul.*::mul$")
-                idt = rc(fv, s["term"]["args"][1], r"::identity$")
+                # either compared with the identity directly or through an identity predicate (C17.is_identity decides that those are ct_eq with the identity)
+                idt = True if is_id else rc(fv, s["term"]["args"][1], r"::identity$")
                 if m and idt:
                     names = []
                     for o in m["args"]:
@@ -269,6 +271,16 @@ def check_cfg(F, R, cfg):
                         names.append(str(e[3]) if e[0] == "const" else ("arg%d" % e[1] if e[0] == "arg" else "?"))
                     good = any(n.endswith("constants::BASEPOINT_ORDER_PRIVATE") or n.endswith("constants::BASEPOINT_ORDER") for n in names) and "arg1" in names
         (R.ok if good else R.viol)("C17.is_torsion_free", I("CofactorGroup::is_torsion_free"), "(self * l).ct_eq(identity)" if good else "is_torsion_free is not [l]P == identity", *(() if good else (fv.loc(),)))
+    # identity predicates of the group traits make exactly the comparisons of equality with the identity (FORMULA domain)
+    import formula_rules as FR
+    epa = F.adts.get(EP)
+    if epa:
+        fe_ty = epa["variants"][0]["fields"][0]["ty"]
+        nid = 0
+        for inst, f_, ok, msg in FR.identity_predicates(F, fe_ty):
+            nid += 1 if f_ else 0
+            (R.ok if ok else R.viol)("C17.is_identity", I(inst), msg, *(() if ok else (F.loc(f_) if f_ else "",)))
+        R.floor("C17.is_identity", I("Group::is_identity impls decided"), nid, 3)
     for nm in ("from_bytes", "from_bytes_unchecked"):
         f = method(SP, r"GroupEncoding$", nm)
         if f:
